@@ -81,28 +81,39 @@ def _p1(ctx, rep):
     for a in apps:
         e = a.args[0]
         ok, why = False, ""
-        # e == X.to_var() ; X = proj_estimate or proj_estimate[0]
+        # e == X.to_var() where every definition of X leads back (through local names and [0] of the (estimate, history) pair)
+        # to <linear estimate>.calc_proj_physical(...)
         if isinstance(e, ast.Call) and isinstance(e.func, ast.Attribute) and e.func.attr == "to_var" and not e.args:
-            x = e.func.value
-            if isinstance(x, ast.Subscript) and is_num(x.slice, 0):
-                x = x.value
-            if isinstance(x, ast.Name) and x.id in body_defs:
-                pe = body_defs[x.id]
-                if isinstance(pe, ast.Call) and isinstance(pe.func, ast.Attribute) and pe.func.attr == "calc_proj_physical" \
-                        and isinstance(pe.func.value, ast.Name) and pe.func.value.id == lv:
-                    # set_mode_proj_order precedes the projection
-                    setm = [n for n in ast.walk(lp) if isinstance(n, ast.Call) and isinstance(n.func, ast.Attribute)
-                            and n.func.attr == "set_mode_proj_order" and isinstance(n.func.value, ast.Name) and n.func.value.id == lv]
-                    good_set = [s for s in setm if s.args and unparse(s.args[0]) in ("self.mode_proj_order", "self._mode_proj_order")]
+            all_defs = {}
+            for n_ in ast.walk(lp):
+                if isinstance(n_, ast.Assign) and len(n_.targets) == 1 and isinstance(n_.targets[0], ast.Name):
+                    all_defs.setdefault(n_.targets[0].id, []).append(n_.value)
+
+            def leaves(x, seen):
+                if isinstance(x, ast.Subscript) and is_num(x.slice, 0):
+                    return leaves(x.value, seen)
+                if isinstance(x, ast.Name) and x.id in all_defs and x.id not in seen:
+                    out = []
+                    for d_ in all_defs[x.id]:
+                        out += leaves(d_, seen | {x.id})
+                    return out
+                return [x]
+            lvs = leaves(e.func.value, frozenset())
+            projs = [x for x in lvs if isinstance(x, ast.Call) and isinstance(x.func, ast.Attribute) and x.func.attr == "calc_proj_physical"
+                     and isinstance(x.func.value, ast.Name) and x.func.value.id == lv]
+            if lvs and len(projs) == len(lvs):
+                from ..astutil import deep_inline
+                setm = [n_ for n_ in ast.walk(lp) if isinstance(n_, ast.Call) and isinstance(n_.func, ast.Attribute)
+                        and n_.func.attr == "set_mode_proj_order" and isinstance(n_.func.value, ast.Name) and n_.func.value.id == lv]
+                good_set = [s_ for s_ in setm if s_.args and unparse(deep_inline(f, s_.args[0])) in ("self.mode_proj_order", "self._mode_proj_order")]
+                ok = True
+                for pe in projs:
                     pn = cfg.node_of(pe)
-                    if good_set and pn is not None and any(cfg.dominates(cfg.node_of(s), pn) for s in good_set):
-                        ok = True
-                    else:
+                    if not (good_set and pn is not None and any(cfg.dominates(cfg.node_of(s_), pn) for s_ in good_set)):
+                        ok = False
                         why = "set_mode_proj_order(self.mode_proj_order) does not precede the projection on every path"
-                else:
-                    why = "%s is %s, not %s.calc_proj_physical(...)" % (x.id, unparse(pe), lv)
             else:
-                why = "appended value is not derived from the projection result"
+                why = "appended value derives from %s, not only from %s.calc_proj_physical(...)" % ([unparse(x)[:60] for x in lvs if x not in projs], lv)
         else:
             why = "appended value %s is not <projection>.to_var()" % unparse(e)
         if ok and not src_ok:
@@ -230,18 +241,25 @@ def _p3(ctx, rep, name, f: Func):
         return None
 
     x_next = None
+    scal = set(scal)
     for st in lp.body:
         if isinstance(st, ast.Assign) and len(st.targets) == 1 and isinstance(st.targets[0], ast.Name):
             tn = st.targets[0].id
-            if tn in ("y_prev", "x_next", "tmp", "moment_next"):
-                try:
-                    # scalar-valued prefactors like (k - 2) / (k + 1) are opaque scalings
-                    env[tn] = eval_lin(_abstract_scalars(st.value), env, app, scalars=scal | {"_s"})
-                except NotLinear as ex:
+            names = {n.id for n in ast.walk(st.value) if isinstance(n, ast.Name)}
+            if names and names <= ({"k"} | scal) and not any(isinstance(n, ast.Call) for n in ast.walk(st.value)):
+                scal.add(tn)            # a scalar coefficient built from the loop counter / step sizes
+                continue
+            try:
+                # scalar-valued prefactors like (k - 2) / (k + 1) are opaque scalings
+                env[tn] = eval_lin(_abstract_scalars(st.value), env, app, scalars=scal | {"_s"})
+            except NotLinear as ex:
+                if tn == "x_next":
                     rep.undecided("P3", f, st, str(ex))
                     return
-                if tn == "x_next":
-                    x_next = (st, env[tn])
+                env.pop(tn, None)
+                continue
+            if tn == "x_next":
+                x_next = (st, env[tn])
     if x_next is None:
         rep.undecided("P3", f, "x_next", "no assignment of x_next in the loop body")
         return
@@ -257,9 +275,13 @@ def _p3(ctx, rep, name, f: Func):
         ok, why = False, "no backtracking while-loop"
         if len(whiles) == 1 and len(a_init) == 1 and is_num(a_init[0].value, 1.0):
             w = whiles[0]
-            upd = [s for s in w.body if isinstance(s, ast.Assign) and unparse(s.targets[0]) == "alpha"]
+            upd = [s for s in w.body if (isinstance(s, ast.Assign) and unparse(s.targets[0]) == "alpha")
+                   or (isinstance(s, ast.AugAssign) and unparse(s.target) == "alpha")]
             if len(upd) == 1 and len(w.body) == 1:
-                v = upd[0].value
+                if isinstance(upd[0], ast.AugAssign):
+                    v = ast.BinOp(left=ast.Name(id="alpha", ctx=ast.Load()), op=upd[0].op, right=upd[0].value)
+                else:
+                    v = upd[0].value
                 c = None
                 if isinstance(v, ast.BinOp) and isinstance(v.op, ast.Mult):
                     if unparse(v.right) == "alpha":
@@ -293,7 +315,17 @@ def _p3(ctx, rep, name, f: Func):
     res = [n for n in own_nodes(f.node) if isinstance(n, ast.Call) and isinstance(n.func, ast.Name) and n.func.id.endswith("Result")]
     ok = bool(res) and all(n.args and unparse(n.args[0]) == "x_next" for n in res)
     rets = returns(f)
-    ok = ok and all(isinstance(r.value, ast.Name) and r.value.id == "result" for r in rets)
+    rdefs = single_defs(f)
+    all_defs = {}
+    for n_ in own_nodes(f.node):
+        if isinstance(n_, ast.Assign) and len(n_.targets) == 1 and isinstance(n_.targets[0], ast.Name):
+            all_defs.setdefault(n_.targets[0].id, []).append(n_.value)
+
+    def is_result(v):
+        if isinstance(v, ast.Name):
+            return bool(all_defs.get(v.id)) and all(d_ in res for d_ in all_defs[v.id])
+        return v in res
+    ok = ok and bool(rets) and all(is_result(r.value) for r in rets)
     rep.check(ok, "P3", f, "result value", "every result is built from x_next", "a result is built from %s"
               % [unparse(n.args[0]) if n.args else None for n in res], node=res[0] if res else f.node)
     # shift: x_prev = x_next at loop head
@@ -322,18 +354,33 @@ def _abstract_scalars(e):
 
 
 def _p4(ctx, rep, name, f: Func):
-    tests = [n for n in own_nodes(f.node) if isinstance(n, ast.If) and unparse(n.test) in ("algorithm_option.var_start is None",)]
-    ok, why = False, "no `if algorithm_option.var_start is None` start-point selection"
-    for t in tests:
-        a = [s for s in t.body if isinstance(s, ast.Assign) and unparse(s.targets[0]) == "x_prev"]
-        b = [s for s in t.orelse if isinstance(s, ast.Assign) and unparse(s.targets[0]) == "x_prev"]
-        if len(a) == 1 and len(b) == 1:
-            av, bv = unparse(a[0].value), unparse(b[0].value)
-            if av != "self._qt.generate_empty_estimation_obj_with_setting_info().generate_origin_obj().to_var()":
-                why = "default start is %s, expected the origin object of the estimation template" % av
-            elif bv != "algorithm_option.var_start":
-                why = "a given start point is replaced by %s" % bv
-            else:
-                ok = True
-    rep.check(ok, "P4", f, "start point", "x0 = template origin .to_var() when var_start is None, else var_start", why,
-              node=tests[0] if tests else f.node)
+    """start point: x_prev (before the loop) is the template's origin when no start is given, and the given start otherwise -
+    whatever the spelling of the selection (if/else in either order, conditional expression)"""
+    from ..astutil import deep_inline, guards_of, conjuncts
+    lp = _main_loop(f)
+    atom = "algorithm_option.var_start is None"
+    ORIGIN = "self._qt.generate_empty_estimation_obj_with_setting_info().generate_origin_obj().to_var()"
+    got = {}
+    first = None
+    for n in own_nodes(f.node):
+        if isinstance(n, ast.Assign) and len(n.targets) == 1 and unparse(n.targets[0]) == "x_prev" and (lp is None or n.lineno < lp.lineno):
+            first = first or n
+            g = {t: pol for t, pol, _ in guards_of(n)}
+            v = deep_inline(f, n.value)
+            if isinstance(v, ast.IfExp):
+                c = conjuncts(v.test, True)
+                if c and len(c) == 1 and c[0][0] == atom:
+                    got[c[0][1]] = unparse(v.body)
+                    got[not c[0][1]] = unparse(v.orelse)
+                    continue
+            if atom in g:
+                got[g[atom]] = unparse(v)
+    con = "start point"
+    if True not in got or False not in got:
+        rep.undecided("P4", f, con, "no selection of the start point on `%s` found before the loop" % atom)
+    elif got[True] != ORIGIN:
+        rep.violation("P4", f, con, "default start is %s, expected the origin object of the estimation template" % got[True], node=first)
+    elif got[False] != "algorithm_option.var_start":
+        rep.violation("P4", f, con, "a given start point is replaced by %s" % got[False], node=first)
+    else:
+        rep.holds("P4", f, con, "x0 = template origin .to_var() when var_start is None, else var_start", node=first)
